@@ -159,6 +159,10 @@ def wDelconsumer : Bytes := [100,101,108,99,111,110,115,117,109,101,114]
 def wPing : Bytes := [112,105,110,103]
 def wSelect : Bytes := [115,101,108,101,99,116]
 def wPublish : Bytes := [112,117,98,108,105,115,104]
+def wMulti : Bytes := [109,117,108,116,105]
+def wExec : Bytes := [101,120,101,99]
+/-- transaction brackets are never withheld by the database filter (D23 repair) -/
+def isTxnBracket (cmd : Bytes) : Bool := cmd == wMulti || cmd == wExec
 def wSentinelHello : Bytes :=
   [95,95,115,101,110,116,105,110,101,108,95,95,58,104,101,108,108,111]
 
@@ -471,7 +475,7 @@ def parseFilter (f : KeyFilter) (bypass : Bool) (cmd : Bytes) (argv : List Bytes
       | _ => (bypass, .error)
     else if f.filterCmd cmd then (bypass, .dropped)
     else if eqFold cmd wPublish && eqFold (argv.headD []) wSentinelHello then (bypass, .dropped)
-    else if bypass then (bypass, .dropped)
+    else if bypass && !isTxnBracket cmd then (bypass, .dropped)
     else
       match f.filterCmdKey cmd argv with
       | none => (bypass, .dropped)
